@@ -15,6 +15,8 @@ pub struct Endpoint {
     pub child: Child,
     pub addr: SocketAddr,
     pub started: Instant,
+    /// the TLS hosts settings file the process was started with (rewritten for reload tests)
+    pub hosts_path: Option<std::path::PathBuf>,
     _files: Vec<TempFile>,
     log: TempFile,
 }
@@ -75,7 +77,7 @@ pub fn start_existing(cwd: &std::path::Path, settings: &str, hosts: &str, addr: 
         if std::net::TcpStream::connect_timeout(&addr, Duration::from_millis(200)).is_ok() {
             std::thread::sleep(Duration::from_millis(20));
             if let Ok(None) = child.try_wait() {
-                return Start::Up(Endpoint { child, addr, started, _files: vec![], log });
+                return Start::Up(Endpoint { child, addr, started, hosts_path: None, _files: vec![], log });
             }
             continue;
         }
@@ -162,6 +164,7 @@ pub fn start_on(settings: &str, hosts: &str, credentials: &str, wait_up: Duratio
                         child,
                         addr,
                         started,
+                        hosts_path: Some(hfile.0.clone()),
                         _files: vec![cred, sfile, hfile],
                         log,
                     });
